@@ -25,6 +25,20 @@ def _gen_plan(seed, tier):
     plan = solverplan.gen_solver_plan(seed, tier, ID, KNOBS)
     # fault-injecting configuration (reported separately in the evidence: faults_fired): an ENOSPC / EIO on a write
     # of a LoggingMonitor file.  The plan ends where the error reaches the caller.
+    r3 = sub_rng(seed, 'plan.c04.collapse')
+    if r3.random() < 0.1:
+        # a run whose termination holds a collapse condition: Solve() applies the collapse and carries on -- the callback,
+        # the counters and the monitors have to stay faithful across that internal restart
+        term = {'t': 'Or', 'of': [{'t': 'COG', 'kw': {'tolerance': r3.choice([1e-10, 1e-6]), 'generations': r3.choice([10, 20])}},
+                                  {'t': r3.choice(['CollapseAt', 'CollapseAt', 'CollapseAs']),
+                                   'kw': {'tolerance': r3.choice([1e-3, 1e-2, 0.1, 1.0]), 'generations': r3.choice([1, 2, 3, 5])}}]}
+        ops = [o for o in plan['ops'] if not (o['op'] == 'set' and o['what'] in ('termination', 'constraint'))]
+        first = next((i for i, o in enumerate(ops) if o['op'] in ('step', 'solve')), len(ops))
+        ops.insert(first, {'op': 'set', 'what': 'termination', 'arg': term})
+        if not any(o['op'] == 'set' and o['what'] == 'limits' and o['arg'][0] is not None for o in ops[:first]):
+            ops.insert(first, {'op': 'set', 'what': 'limits', 'arg': [r3.choice([20, 40, 60]), None, False]})
+        ops.insert(first + 2, {'op': 'solve'})
+        plan['ops'] = ops
     logging = any(o['op'] == 'set' and o['what'] in ('stepmon', 'evalmon') and (o.get('arg') or {}).get('kind') == 'Logging'
                   for o in plan['ops'])
     rng = sub_rng(seed, 'fault')
